@@ -377,6 +377,9 @@ def run(ctx):
     ctx.add_sample({"script": [ln[:300] for ln in execs[0][:3]]})
     ctx.add_sample({"script": [ln[:300] for ln in execs[-1][:3]]})
     pipeline.drive_and_validate(ctx, exe, execs, SPEC_DIR, "XmlTrace", "Trace.cfg", label="xml", nbatch=16)
+    # the process-locale family (lib/vlib/locale8.py): a slice of the same executions in a process that called setlocale()
+    from vlib import locale8
+    locale8.rerun(ctx, exe, execs[::4] if not thorough else execs[::2], SPEC_DIR, "XmlTrace", "Trace.cfg", "xml", nbatch=8)
     # the same parsers on several threads at once (Stateless.tla): one outcome per operation whoever performs it, and a
     # ThreadSanitizer pass over the same scenarios (hidden shared state is a data race whatever the schedule)
     from checks import stateless_common
